@@ -66,12 +66,13 @@ def run(ctx):
         mon.cid = cid
         D = int(rng.integers(2, 7))
         kind = int(rng.integers(3))
+        N = 0 if rng.random() < 0.06 else int(rng.integers(4, 30))     # (a sample without events still has channels and limits)
         if kind == 0:
-            s = zoo.write_and_load(F, zoo.int_spec(rng, n=int(rng.integers(4, 30)), d=D), path)
+            s = zoo.write_and_load(F, zoo.int_spec(rng, n=N, d=D), path)
         elif kind == 1:
-            s = zoo.write_and_load(F, zoo.float_spec(rng, n=int(rng.integers(4, 30)), d=D), path)
+            s = zoo.write_and_load(F, zoo.float_spec(rng, n=N, d=D), path)
         else:
-            s = rng.integers(0, 1024, size=(int(rng.integers(4, 30)), D)).astype(float)
+            s = rng.integers(0, 1024, size=(N, D)).astype(float)
         if kind == 0 and rng.random() < 0.5:
             s = F.transform.to_rfi(s)
         k = int(rng.integers(1, min(D, 4) + 1))
